@@ -316,7 +316,7 @@ class Recorder:
                     v = tn.norm_gloop_expand(gloops=[tuple(geo.sites)], gauges=gauges, strip_exponent=strip, autoreduce=ared,
                                              autocomplete=rng.choice([False, True]))
                 if strip:
-                    v = v[0] * 10.0 ** float(v[1])
+                    v = complex(v[0]) * 10.0 ** complex(v[1])
                 rec["ongrid"], rec["val"] = U.snap_scalar(complex(v) ** 2, 1, geo.den)
                 self._count(route, "returned")
             except Exception as ex:  # noqa
